@@ -43,6 +43,9 @@ TraceInit ==
     /\ rows = IF Tr.calls[tid].includeOrigin THEN << [kind |-> "val", v |-> 0] >> ELSE <<>>
     /\ k = 0 /\ pc = "step"
 
+(* the integrator was set up with the specification's right-hand side and its Jacobian df_i/dx_j in the       *)
+(* orientation the scipy routine expects (judged at the initial point by the recorder against the normal forms) *)
+TrSetup   == IsEvent("Setup") /\ Ev.rhs = "ok" /\ Ev.jac \in {"ok", "none"} /\ UNCHANGED vars
 TrStep    == IsEvent("Step") /\ Step
 TrAppend  == IsEvent("Append") /\ AppendRow /\ RowsMatchView(Ev.rows, View') /\ ConservedOK(Ev.rows)
 TrResetup == IsEvent("Resetup") /\ Resetup
@@ -50,7 +53,7 @@ TrOdeint  == IsEvent("Odeint") /\ Odeint
 TrReturn  == IsEvent("Return") /\ Return /\ Len(Ev.rows) = nt + Origin
              /\ RowsMatchView(Ev.rows, View) /\ ConservedOK(Ev.rows)
 
-TraceNext == TrStep \/ TrAppend \/ TrResetup \/ TrOdeint \/ TrReturn
+TraceNext == TrSetup \/ TrStep \/ TrAppend \/ TrResetup \/ TrOdeint \/ TrReturn
 TraceSpec == TraceInit /\ [][TraceNext]_tvars
 Progress == PrintT(<<"AT", tid, l, NEvts + 1>>)
 =============================================================================
